@@ -253,9 +253,9 @@ Section MV.
 End MV.
 Fixpoint mvfree (f : form) {struct f} : bool :=
   match f with
-  | Const _ | Tr _ | Signal _ | Incf _ | Lt _ _ | Setv _ _ | CallList _ | Progn _ | Tagbody _
+  | Const _ | Tr _ | Signal _ | Incf _ | Lt _ _ | Setv _ _ | CallList _ | Tagbody _
   | ReturnFrom _ _ | Return _ | Go _ => true
-  | When _ body | Let _ body | WithMutex _ body | WithFile _ body => last_ok mvfree body
+  | Progn body | When _ body | Let _ body | WithMutex _ body | WithFile _ body => last_ok mvfree body
   | Cond cs => clauses_ok mvfree cs
   | UnwindProtect _ p _ => mvfree p
   | _ => false
@@ -288,7 +288,7 @@ Section Guard.
     match cs with
     | [] => true
     | (c, b) :: r =>
-        mvfree c && gd pb [] [] c && negb (match b with [] => true | _ => false end) &&
+        gd pb [] [] c && negb (match b with [] => true | _ => false end) &&
         g_seq pb [] [] R G b && g_clauses pb R G r
     end.
 End Guard.
@@ -298,7 +298,7 @@ Fixpoint gd (pb : bool) (R G : list N) (f : form) {struct f} : bool :=
   | Const _ | Tr _ | Signal _ | Incf _ | Lt _ _ | Setv _ _ => true
   | CallList args => g_all gd pb [] [] args
   | Progn body => g_seq gd pb [] [] R G body
-  | When c body => mvfree c && gd pb [] [] c && g_seq gd pb [] [] R G body
+  | When c body => gd pb [] [] c && g_seq gd pb [] [] R G body
   | Cond cs => g_clauses gd pb R G cs
   | Let inits body => g_all gd pb [] [] inits && g_all gd false R G body
   | Block t body => g_seq gd true (t :: R) [] (t :: R) G body
